@@ -243,6 +243,7 @@ def execute_factory(obl):
         if r.violations:
             r.labels.append("violating")
         r.observed = {"crash_points": n + 1, "during_flush": n_flush, "during_compaction": n_comp}
+        r.counters = {"crash_points_executed": n + 1, "crash_points_during_flush": n_flush, "crash_points_during_compaction": n_comp}
         r.target = float(n_comp + n_flush)
         return r
     return execute
